@@ -1,3 +1,4 @@
+import BasicModel.Gen.Limits
 import BasicModel.Lemmas.SortedList
 import BasicModel.Spec.MapSpec
 /-
@@ -844,6 +845,10 @@ theorem wf_run (ops : List Op) : WF (ops.foldl step {}) := by
 
 example : WF ([Op.ins ⟨10, by omega⟩ [], Op.ins ⟨5, by omega⟩ [], Op.delRange none (some 7),
     Op.renum 100 0 10].foldl step {}) := wf_run _
+
+/-- the largest line number re-extracted from lang/mod.rs; `Gen/Limits.lean` is regenerated from /repo/src on every run, so editing one of these
+    constants in the Rust source breaks this obligation -/
+theorem generated_limits_documented : Gen.maxLineNumber = 65529 := by decide
 
 end Thm.C15
 end Basic
